@@ -442,6 +442,7 @@ class SResponse(SOpaque):
         self.status = status
         self.json_value = json_value
         self.content = SOpaque("response.content", cls=bytes)
+        self.content.nonempty = z3.Bool("response_content_nonempty")       # a body may be empty: its truthiness is symbolic
         self.content.getattr = lambda I2, name: SFunc("model", lambda I3, a, k: _bytes_decode(I3, a, k)) if name == "decode" else (_ for _ in ()).throw(Unsupported(name))
         self.text = SStr(z3.Const("response_text", z3.StringSort()))
         self.headers = SOpaque("response.headers")
